@@ -252,6 +252,117 @@ def check_crop_data(ctx: Ctx):
     it2.root.no_inline = {gp.qual}
     out2 = it2.run()
     ctx.decide("R10.1", f, f.node, construct + ":idempotent", "cropping an already cropped pair changes nothing", out2.kind != "raise" and not [s for s in it2.root.stages if s[0] == "crop"] and pair.attrs.get("_prediction_arr") is pa, None, nontrivial=False)
+    # a copy of a cropped pair (the pipeline copies the pair between its phases, users re-evaluate
+    # intermediate pairs): cropping the copy must not apply the original's slices a second time
+    for cname in ("UnmatchedInstancePair", "MatchedInstancePair", "SemanticPair"):
+        pc = it0._mkpair(cname, "input")
+        itc = PipelineInterp(prog, f, {}, self_obj=pc)
+        itc.root.no_inline = {gp.qual}
+        if itc.run().kind == "raise":
+            continue
+        cp = pc.cls.lookup("copy")
+        if cp is None:
+            continue
+        c2 = f"{f.qual}:copy-of-cropped-{cname}"
+        itk = PipelineInterp(prog, cp, {}, self_obj=pc)
+        itk.root.no_inline = {gp.qual, prog.func("utils.processing_pair:_check_array_integrity").qual, prog.func("utils.numpy_utils:_unique_without_zeros").qual, prog.func("utils.numpy_utils:_count_unique_without_zeros").qual}
+        try:
+            ok_ = itk.run()
+        except Undecided as e:
+            ctx.undecided("R10.1", cp, cp.node, c2, f"copy() not evaluable: {e}")
+            continue
+        cpy = ok_.value
+        if ok_.kind != "return" or ok_.decisions or not isinstance(cpy, Obj):
+            ctx.undecided("R10.1", cp, cp.node, c2, f"copy() not evaluable: {ok_.kind} {ok_.exc}")
+            continue
+        itr = PipelineInterp(prog, f, {}, self_obj=cpy)
+        itr.root.no_inline = {gp.qual}
+        outr = itr.run()
+        dbl = itr.root.__dict__.get("double_crops", [])
+        ctx.decide("R10.1", f, dbl[0][0] if dbl else f.node, c2, "cropping a copy of a cropped pair uses a crop computed from the copy's own arrays (or none), never the original's slices again", (not dbl) if (outr.kind != "raise" and not outr.decisions) else None, {"re-sliced": [s for _, s in dbl], "outcome": outr.kind})
+
+
+def check_pair_constructor(ctx: Ctx):
+    """R10.4: what a processing pair records about its arrays is what the arrays are: the
+    dimensionality is the arrays' ndim (it selects the connected-component backend and with it
+    the connectivity: a singleton axis or zero padding must not change it), the label tuples are
+    the label enumerations of the pair's own sides."""
+    from .arrdom import ArrInterp
+
+    prog = ctx.prog
+    cls = prog.cls("utils.processing_pair:_ProcessingPair")
+    init = cls.lookup("__init__")
+    if init is None:
+        raise AnchorMissing("_ProcessingPair.__init__")
+    uq = prog.func("utils.numpy_utils:_unique_without_zeros")
+
+    class PairInterp(ArrInterp):
+        def get_attr(self, base, attr, node):
+            if isinstance(base, AArr) and attr == "shape":
+                return _ShapeV(base.side)
+            return super().get_attr(base, attr, node)
+
+        def iterate(self, it_, node):
+            if isinstance(it_, _ShapeV):
+                # the extents of the axes: whatever is computed from them depends on the sizes
+                self.root.__dict__.setdefault("extent_reads", []).append(node)
+                return [Sym(f"{it_.side}.extent{i}") for i in range(3)]
+            return super().iterate(it_, node)
+
+        def call_builtin(self, name, args, kwargs, node):
+            if name == "len" and args and isinstance(args[0], _ShapeV):
+                return Sym(f"{args[0].side}.ndim")
+            return super().call_builtin(name, args, kwargs, node)
+
+        def compare_hook(self, op, l, r, node):
+            if isinstance(l, Sym) and ".extent" in l.name:
+                return self.root.__dict__.setdefault("_ext_unknowns", {}).setdefault((l.name, type(op).__name__, repr(r)), Unknown("extent comparison"))
+            return super().compare_hook(op, l, r, node)
+
+        def external_call(self, name, args, kwargs, node):
+            if self.prog.is_anchor(name, "utils.numpy_utils:_unique_without_zeros") and args and isinstance(args[0], AArr):
+                return [Sym(f"LABELS_OF_{args[0].side}")]
+            if self.prog.is_anchor(name, "utils.processing_pair:_check_array_integrity"):
+                return None
+            return super().external_call(name, args, kwargs, node)
+
+    holder = []
+
+    def make(prefix):
+        o_ = Obj(cls, {})
+        pred, ref = AArr("PRED", False), AArr("REF", False)
+        args = {}
+        for p in init.call_params:
+            lp = p.name.lower()
+            args[p.name] = pred if lp.startswith("pred") else ref if lp.startswith("ref") else None
+        it_ = PairInterp(prog, init, args, metrics=[], self_obj=o_, prefix=prefix)
+        it_.root.no_inline = {uq.qual, prog.func("utils.processing_pair:_check_array_integrity").qual}
+        holder.append((o_, it_))
+        return it_
+
+    outs = enumerate_paths(make, max_paths=16)
+    construct = f"{init.qual}"
+    ext = [n_ for o_, it_ in holder for n_ in it_.root.__dict__.get("extent_reads", [])]
+    if ext and any(o_.attrs.get("n_dim") not in (Sym("REF.ndim"), Sym("PRED.ndim")) for o_, it_ in holder):
+        ctx.violated("R10.4", init, ext[0], construct + ":n_dim", "the recorded dimensionality is computed from the extents of the axes: a singleton axis or padding changes it (and with it the connected-component backend)", {"n_dim": sorted({repr(o_.attrs.get('n_dim')) for o_, _ in holder})[:4]})
+        return
+    out, (o, it) = outs[0], holder[0]
+    if len(outs) != 1 or out.kind == "raise" or out.decisions:
+        ctx.undecided("R10.4", init, out.node, construct, f"pair constructor not evaluable: {out.kind} {out.exc} {[norm(d[0]) for d in out.decisions if isinstance(d[0], ast.AST)][:2]}")
+        return
+    nd = o.attrs.get("n_dim")
+    ctx.decide("R10.4", init, init.node, construct + ":n_dim", "the recorded dimensionality is the arrays' ndim", nd in (Sym("REF.ndim"), Sym("PRED.ndim")), {"got": repr(nd)})
+    for attr, side in (("_ref_labels", "REF"), ("_pred_labels", "PRED")):
+        v = o.attrs.get(attr)
+        ctx.decide("R10.4", init, init.node, construct + ":" + attr, f"{attr} is the label enumeration of the {side.lower()} array", isinstance(v, (tuple, list)) and list(v) == [Sym(f"LABELS_OF_{side}")], {"got": repr(v)[:80]})
+    for attr, side in (("_prediction_arr", "PRED"), ("_reference_arr", "REF")):
+        v = o.attrs.get(attr)
+        ctx.decide("R10.4", init, init.node, construct + ":" + attr, f"{attr} holds the {side.lower()} array", isinstance(v, AArr) and v.side == side, {"got": repr(v)[:80]}, nontrivial=False)
+
+
+class _ShapeV:
+    def __init__(self, side):
+        self.side = side
 
 
 class _UnionMask:
@@ -393,7 +504,7 @@ class _UM:
 
 
 def check(ctx: Ctx):
-    for fn, rule in ((check_crop_data, "R10.1"), (check_bbox, "R10.2"), (check_crop_mask, "R10.3")):
+    for fn, rule in ((check_crop_data, "R10.1"), (check_bbox, "R10.2"), (check_crop_mask, "R10.3"), (check_pair_constructor, "R10.4")):
         try:
             fn(ctx)
         except (Undecided, AnchorMissing) as e:
@@ -435,7 +546,12 @@ _P = "panoptica/utils/processing_pair.py"
 _F = "panoptica/_functionals.py"
 
 _FN = "panoptica/_functionals.py"
+_PP = "panoptica/utils/processing_pair.py"
+
 VARIANTS = [
+    Variant("C10-m-ndim-nonsingleton", "R10.4", "mutant", [(_PP, "        self.n_dim = reference_arr.ndim", "        self.n_dim = sum(1 for s in reference_arr.shape if s > 1)")]),
+    Variant("C10-m-labels-crossed", "R10.4", "mutant", [(_PP, "        self._ref_labels: tuple[int, ...] = tuple(\n            _unique_without_zeros(reference_arr)\n        )", "        self._ref_labels: tuple[int, ...] = tuple(\n            _unique_without_zeros(prediction_arr)\n        )")]),
+    Variant("C10-t-ndim-len-shape", "R10.4", "twin", [(_PP, "        self.n_dim = reference_arr.ndim", "        self.n_dim = prediction_arr.ndim")]),
     Variant("C10-m-crop-mask-pred-background", "R10.3", "mutant", [(_FN, "combined = np.logical_or(prediction_arr != 0, reference_arr != 0)", "combined = np.logical_or(prediction_arr == 0, reference_arr != 0)")], control=True),
     Variant("C10-m-crop-mask-ref-only", "R10.3", "mutant", [(_FN, "combined = np.logical_or(prediction_arr != 0, reference_arr != 0)", "combined = reference_arr != 0")]),
     Variant("C10-m-crop-mask-label-one", "R10.3", "mutant", [(_FN, "combined = np.logical_or(prediction_arr != 0, reference_arr != 0)", "combined = np.logical_or(prediction_arr != 1, reference_arr != 0)")]),
